@@ -360,7 +360,11 @@ define(
     'equals the TBR scale radicand at the F-quantile displacement and the '
     'impact strictly decreases in |corr| when the quantile sum is positive '
     '(the all-levels clause is the known finding).  Against the real TBR '
-    'post-analysis, scaling and shift invariance: bounded run-time contract.',
+    'post-analysis, scaling and shift invariance: bounded run-time contract.  '
+    'The check also runs the contracts of the post-analysis side (TBR.summary '
+    'algebra, date order of the aggregated frame, rows of the pre-period '
+    'regression) and the purity obligation of the lru_cache helper '
+    '_impact_estimate (reads only its arguments).',
     'DESIGN.md section 7, C05',
     'Level is the weaker (bounded) one: the analysis-side posterior (NumPy '
     'matrix code of tbr.py) is only checked at run time.')
@@ -440,7 +444,10 @@ define(
     'below 1e-10, and its .loc cannot raise.  Everything else (fixed-cost '
     'report = response summary / cost, paired simulation, determinism, '
     'lower <= estimate <= upper, label against the raw frame, equivariance) '
-    'is a bounded run-time contract against a NumPy oracle.',
+    'is a bounded run-time contract against a NumPy oracle.  The check also '
+    'runs the TBR.summary contract the fixed-cost report is built from '
+    '(estimate / bounds / probability = 1 - cdf(threshold) of the rescaled '
+    'posterior).',
     'DESIGN.md section 7, C07',
     'Level is the weaker (bounded) one.')
 
@@ -551,7 +558,9 @@ define(
     'fresh value from any invariant state and to re-establish the invariant, '
     'both setters and the constructor establish it - for all series, '
     'parameters and call histories.  The exhaustive bounded history monitor '
-    'is an independent cross-check.',
+    'is an independent cross-check.  The two lru_cache helpers are inlined '
+    'under the obligation that they read nothing but their arguments (a '
+    'cached result keyed by the arguments cannot go stale).',
     'DESIGN.md section 7, C08',
     'Proof modulo the numeric ledger (determinism of library calls) and '
     'engine soundness; bounded monitor not counted as proved.')
